@@ -1300,6 +1300,40 @@ pub fn mono(genv: GlobalTypeEnv, file: core::File) -> (MonoFile, GlobalMonoEnv) 
         }
     }
 
+    // The dyn vtables are built from the trait method signatures.
+    let trait_names: Vec<String> = m
+        .monoenv
+        .genv
+        .trait_env
+        .trait_defs
+        .keys()
+        .cloned()
+        .collect();
+    for name in trait_names {
+        let Some(methods) = m
+            .monoenv
+            .genv
+            .trait_env
+            .trait_defs
+            .get(&name)
+            .map(|def| def.methods.clone())
+        else {
+            continue;
+        };
+        let methods = methods
+            .into_iter()
+            .map(|(method, mut scheme)| {
+                if !has_tparam(&scheme.ty) {
+                    scheme.ty = m.collapse_type_apps(&scheme.ty);
+                }
+                (method, scheme)
+            })
+            .collect();
+        if let Some(def) = m.monoenv.genv.trait_env.trait_defs.get_mut(&name) {
+            def.methods = methods;
+        }
+    }
+
     // Drop all generic enum defs to avoid Go backend panics
     m.monoenv.retain_enums(|_n, def| def.generics.is_empty());
     m.monoenv.retain_structs(|_n, def| def.generics.is_empty());
